@@ -43,5 +43,6 @@ const char *outcome_name(int o);
 // runs fn(); returns how it ended.  O_WILDSEGV = fault at an address >= 4096 (never acceptable)
 Outcome guarded_call(void (*fn)(void *), void *arg, uintptr_t *fault_addr = nullptr);
 void install_signal_handlers();
+void set_trig_yields(bool on);   // sin/cos/sincos called by the library become scheduling points (cold-process runs only)
 
 } // namespace sim
